@@ -101,6 +101,16 @@ def compare(rec, b, text, entry=None, pos=0, fullparse=True, monitor='E1', sigpr
             cd = case_dict(b, text, entry, pos, fullparse, **(extra_case or {}))
         return cd
 
+    if 'value' in monitors and not observe.same_outcome(exp, obs) and model is not None and model.shadow_events:
+        # a postfix operator was read where a longer infix operator starts: sourcer reads postfix
+        # operators first (known finding, keyed by this mechanism).  The disagreement is attributed to it
+        # only if the outcome is exactly what the postfix-first reading gives.
+        try:
+            exp2, _ = refpeg.expected(b.chain, text, entry, pos, fullparse, late_ignore=late_ignore, optable_reading='code')
+        except Exception:
+            exp2 = None
+        if exp2 is not None and observe.same_outcome(exp2, obs):
+            sigprefix = sigprefix + 'postfix-shadows-longer-infix:'
     if 'value' in monitors and not observe.same_outcome(exp, obs):
         rec.violation('%s%s:%s->%s' % (sigprefix, monitor, observe.outcome_class(exp),
                                        observe.outcome_class(obs)),
